@@ -162,6 +162,7 @@ func TestVerifC19(t *testing.T) {
 	envelopeHandler := func(in string) string {
 		var c struct {
 			Msg                    string
+			Req                    string // which request of this node opened the live conversation: "" (the matching one) | "State" | "TransactionListQuery" | "TransactionRangeQuery"
 			Cid                    string // "live" (a conversation started by this node) | "unknown" | "empty"
 			A, B, C2               string // byte-field selectors
 			N1, N2, N3             uint32
@@ -175,6 +176,15 @@ func TestVerifC19(t *testing.T) {
 			list = append(list, bytesOf(l))
 		}
 		cid := func(req checkable) []byte {
+			// type confusion: the peer answers ANOTHER request of this node with this envelope type, reusing that conversation's id
+			switch c.Req {
+			case "State":
+				req = &Envelope_State{State: &State{XOR: bytesOf("ref"), LC: c.N1}}
+			case "TransactionListQuery":
+				req = &Envelope_TransactionListQuery{TransactionListQuery: &TransactionListQuery{Refs: [][]byte{tx.Ref().Slice()}}}
+			case "TransactionRangeQuery":
+				req = &Envelope_TransactionRangeQuery{TransactionRangeQuery: &TransactionRangeQuery{Start: 0, End: 10}}
+			}
 			switch c.Cid {
 			case "live":
 				conv := ep.cMan.startConversation(req, peer)
@@ -298,6 +308,19 @@ func TestVerifC19(t *testing.T) {
 					}
 					runE(map[string]any{"Msg": "TransactionListFromRange", "Cid": cidK, "List": l, "N1": tot, "N2": num}, "TransactionList(range)")
 				}
+			}
+		}
+	}
+	// type-confusion matrix: every request type the node sends × every reply handler that looks the conversation up by the peer-supplied id
+	for _, req := range []string{"State", "TransactionListQuery", "TransactionRangeQuery"} {
+		for _, l := range [][]string{nil, {"txdata"}, {"garbage"}} {
+			for _, tot := range []uint32{0, 1} {
+				runE(map[string]any{"Msg": "TransactionList", "Req": req, "Cid": "live", "A": "nil", "List": l, "N1": tot, "N2": tot}, "reply-type-confusion")
+			}
+		}
+		for _, ib := range []string{"iblt-empty", "garbage", "nil"} {
+			for _, n1 := range []uint32{0, 7} {
+				runE(map[string]any{"Msg": "TransactionSet", "Req": req, "Cid": "live", "A": ib, "N1": n1, "N2": n1}, "reply-type-confusion")
 			}
 		}
 	}
